@@ -16,8 +16,9 @@ number of evaluations (`runSOps`), every valid allocator and every quirk setting
 * `C13_stepwise_snapshot` — with the copy taken at the first `next()` (`snap`, the repair F-C13-3 asks for) no instance is
   ever late and every evaluation ranges within its census, whatever is interleaved;
 * `C13_cex_stepwise` — the witness of F-C13-3 (`decide`).
-The converse direction (every instance of the census that is still alive when the evaluation stops was yielded) is left to
-the correspondence; see the comment at the end.
+The converse direction (every instance of the census that is still alive when the evaluation stops was yielded) is
+`C13_stepwise_complete` in `Props/C13StepComplete.lean`; multiplicity (no duplicates) is left to the correspondence, see the
+comment at the end.
 -/
 namespace KrroodVerif.SG
 
@@ -381,10 +382,10 @@ example :
   decide +kernel
 
 /-
-Left to the correspondence (statement only; not proved): completeness of a stopped evaluation —
-  `it.status = 1 → ∀ o ∈ it.expected, (final state).h.isLive o → o ∈ it.yielded`
-for histories without `clear` between the first `next()` and the end, and `it.yielded.Nodup`. Both need two frame facts
-about every `Op` (a live instance's wrapper stays in its class list unless the registry is cleared; a dead label is
-never alive again) that are not yet stated over `step`.
+The converse direction (`C13_stepwise_complete`: a stopped evaluation has yielded every census instance that is still
+alive, for histories without `clear`) is in `Props/C13StepComplete.lean`.
+Not proved (statement only): `it.yielded.Nodup` (no instance is yielded twice by one evaluation). It needs, on top of the
+invariants here, that the class of a label never changes over a history (a ghost fact about `Heap.used` that `Inv` does not
+carry). Left to the correspondence (`dup=` in the observation).
 -/
 end KrroodVerif.SG
